@@ -651,7 +651,10 @@ def derive_downstream(stub_text):
     if len(meta) >= MAX_PROBES and parent is not None:
       return False
     lines.append("%s = %s\n" % (name, expr))
-    meta[name] = dict(expr=expr, parent=parent, what=what, **flags)
+    # a probe is `constructed` when the oracle builds a new value or chooses call arguments anywhere on the way to
+    # it; otherwise it only reads what A's module already holds
+    built = bool(flags.pop("built", False)) or (parent is not None and meta[parent].get("constructed", False))
+    meta[name] = dict(expr=expr, parent=parent, what=what, constructed=built, **flags)
     return True
   def omitted_tv_default(sig):
     return any(p.optional and has_typevar(canon(p.type)) for p in sig.params)
@@ -670,7 +673,17 @@ def derive_downstream(stub_text):
     own = ["~" + t for t in class_tparams(cls)]
     sub = dict(zip(own, params)) if len(own) == len(params) else None
     seen = {}
-    for k, ksub in mro_subst(cls, classes, sub):
+    chain = mro_subst(cls, classes, sub)
+    def decl_in(t, ksub):
+      e = subst_tv(canon(t), ksub) if ksub is not None else canon(t)
+      if isinstance(e, tuple) and e[:2] == ("G", "Final") and len(e) == 3:
+        e = e[2]
+      return None if has_typevar(e) else e
+    all_owners = {}
+    for k, ksub in chain:
+      for a in k.constants:
+        all_owners.setdefault(a.name, []).append((k.name.split(".")[-1], decl_in(a.type, ksub)))
+    for k, ksub in chain:
       kn = k.name.split(".")[-1]
       def declared(t):
         e = subst_tv(canon(t), ksub) if ksub is not None else canon(t)
@@ -682,11 +695,10 @@ def derive_downstream(stub_text):
         if not public(an):
           continue
         if an in seen:
-          meta[seen[an]]["owners"].append((kn, declared(a.type)))
           continue
         nm = "%s_%s" % (prefix, an)
         if not add(nm, "%s.%s" % (expr, an), parent, "%s.%s" % (where, an), kind="attr", cls=cn, member=an,
-                   declared=canon(a.type), owners=[(kn, declared(a.type))]):
+                   declared=canon(a.type), owners=all_owners[an]):
           return
         seen[an] = nm
         if declared(a.type) is not None:
@@ -714,7 +726,7 @@ def derive_downstream(stub_text):
           continue
         recv = expr if m.kind == pytd.MethodKind.METHOD else "A.%s" % cn
         if not add(nm, "%s.%s(%s)" % (recv, mn, ", ".join(margs)), parent, "%s.%s(...)" % (where, mn), kind="call",
-                   cls=cn, member=mn, omitted_tv_default=omitted_tv_default(sig)):
+                   cls=cn, member=mn, omitted_tv_default=omitted_tv_default(sig), built=bool(margs)):
           return
         seen[mn] = nm
         e = call_expectation(sig, skip_first, classes, const_types, ksub) if ksub is not None else None
@@ -748,7 +760,7 @@ def derive_downstream(stub_text):
       ret = canon(sig.return_type)
       if args is not None:
         add("r_" + n, "A.%s(%s)" % (n, ", ".join(args)), None, "A.%s(...)" % n, kind="call", member=n,
-            omitted_tv_default=omitted_tv_default(sig))
+            omitted_tv_default=omitted_tv_default(sig), built=bool(args))
         e = call_expectation(sig, False, classes, const_types)
         if e is not None:
           exp["r_" + n] = ("type", e, "A.%s(...)" % n)
@@ -761,7 +773,7 @@ def derive_downstream(stub_text):
     args = ctor_args(c, classes_env, 2)
     if args is None:
       continue
-    add("i_" + cn, "A.%s(%s)" % (cn, ", ".join(args)), None, "A.%s(...)" % cn, kind="call", member=cn)
+    add("i_" + cn, "A.%s(%s)" % (cn, ", ".join(args)), None, "A.%s(...)" % cn, kind="call", member=cn, built=True)
     if class_tparams(c):
       # the instance's parameters follow from the constructor arguments the oracle passes (type variables get int)
       own = ["~" + t for t in class_tparams(c)]
@@ -1046,6 +1058,12 @@ def check_pair(src_a, workdir, transports=TRANSPORTS):
         # one (e.g. a more precise result of an unannotated function): not the hand-off's doing
         if e_inf is not None:
           res["inferred_differs_from_declared"] += 1
+        continue
+      if m.get("constructed") and e_stub is None:
+        # the oracle built this value / chose the arguments and the stub gives no closed declared type to hold B
+        # to: A sees the concrete arguments (int for a float parameter, literal precision, ...) and may
+        # legitimately be narrower than what the signature promises B
+        res["undecided_constructed"] = res.get("undecided_constructed", 0) + 1
         continue
       want = [e_inf, e_stub]
       kind = classify(name, m, want, g)
